@@ -71,6 +71,9 @@ pub(crate) struct OverlayInode {
     pub whiteout: AtomicBool,
     // Directory is loaded.
     pub loaded: AtomicBool,
+    // The lower layers (alone) show an entry at this path: removing the node must leave a whiteout,
+    // re-creating a directory here must make it opaque. Survives copy-up and replacement of the real inodes.
+    pub lower_exists: AtomicBool,
 }
 
 #[derive(Default)]
@@ -487,9 +490,24 @@ impl OverlayInode {
         new.path = path.clone();
         new.name = name.to_string();
         new.whiteout.store(real_inode.whiteout, Ordering::Relaxed);
+        new.lower_exists.store(
+            !real_inode.in_upper_layer && !real_inode.whiteout,
+            Ordering::Relaxed,
+        );
         new.lookups = AtomicU64::new(1);
         new.real_inodes = Mutex::new(vec![real_inode]);
         new
+    }
+
+    // Do the lower layers alone show this name? The first entry that is not in the upper layer decides:
+    // a whiteout there hides whatever is below it.
+    fn lower_shows(real_inodes: &[RealInode]) -> bool {
+        for ri in real_inodes.iter() {
+            if !ri.in_upper_layer {
+                return !ri.whiteout;
+            }
+        }
+        false
     }
 
     pub fn new_from_real_inodes(
@@ -502,6 +520,8 @@ impl OverlayInode {
             error!("BUG: new_from_real_inodes() called with empty real_inodes");
             return Err(Error::from_raw_os_error(libc::EINVAL));
         }
+
+        let lower_exists = Self::lower_shows(&real_inodes);
 
         let mut first = true;
         let mut new = Self::new();
@@ -552,6 +572,7 @@ impl OverlayInode {
                 }
             }
         }
+        new.lower_exists.store(lower_exists, Ordering::Relaxed);
         Ok(new)
     }
 
@@ -1242,6 +1263,7 @@ impl OverlayFs {
 
         let mut delete_whiteout = false;
         let mut set_opaque = false;
+        let mut lower_exists = false;
         if let Some(n) = self.lookup_node_ignore_enoent(ctx, parent_node.inode, name)? {
             // Node with same name exists, let's check if it's whiteout.
             if !n.whiteout.load(Ordering::Relaxed) {
@@ -1252,8 +1274,9 @@ impl OverlayFs {
                 delete_whiteout = true;
             }
 
-            // Set opaque if child dir has lower layers.
-            if !n.upper_layer_only() {
+            // Set opaque if the lower layers still show something under this name.
+            lower_exists = n.lower_exists.load(Ordering::Relaxed);
+            if !n.upper_layer_only() || lower_exists {
                 set_opaque = true;
             }
         }
@@ -1287,6 +1310,7 @@ impl OverlayFs {
                 parent_real_inode.layer.set_opaque(ctx, child_dir.inode)?;
             }
             let ovi = OverlayInode::new_from_real_inode(name, ino, path.clone(), child_dir);
+            ovi.lower_exists.store(lower_exists, Ordering::Relaxed);
 
             new_node.replace(ovi);
             Ok(false)
@@ -1891,7 +1915,9 @@ impl OverlayFs {
         let mut need_whiteout = true;
         let pnode = self.copy_node_up(ctx, Arc::clone(&pnode))?;
 
-        if node.upper_layer_only() {
+        // No whiteout is needed only if the lower layers show nothing under this name.
+        let lower_exists = node.lower_exists.load(Ordering::Relaxed);
+        if node.upper_layer_only() && !lower_exists {
             need_whiteout = false;
         }
 
@@ -1959,6 +1985,8 @@ impl OverlayFs {
                     path.clone(),
                     child_ri,
                 ));
+                // What this whiteout hides is still there: remember it for whoever re-creates the name.
+                ovi.lower_exists.store(true, Ordering::Relaxed);
 
                 self.insert_inode(ino, ovi.clone());
                 pnode.insert_child(sname.as_str(), ovi.clone());
